@@ -115,8 +115,12 @@ fn diff(want: &RV, got: &RV, out: &mut BTreeSet<(&'static str, &'static str)>) {
                 for ca in a.chars() {
                     match bi.next() {
                         Some(cb) if cb == ca => {}
-                        _ => {
+                        other => {
                             cls = char_class(ca);
+                            // the control character's code point written in decimal and read as hex?
+                            if cls == "control" && u32::from_str_radix(&format!("{}", ca as u32), 16).ok() == other.map(|c| c as u32) {
+                                cls = "control:decimal-digits-in-hex-escape";
+                            }
                             break;
                         }
                     }
@@ -125,6 +129,11 @@ fn diff(want: &RV, got: &RV, out: &mut BTreeSet<(&'static str, &'static str)>) {
             }
         }
         (a, b) if a == b => {}
+        (RV::Float(a), RV::Float(b)) if a.abs_diff(*b) <= 4 => {
+            // a rounding error of the decimal→binary conversion, as opposed to a wrong number
+            MAX_ULP.fetch_max(a.abs_diff(*b), Ordering::Relaxed);
+            out.insert(("float", "rounding-within-4-ulp"));
+        }
         (a, b) if kind_of(a) == kind_of(b) => {
             out.insert((kind_of(a), "value"));
         }
@@ -799,6 +808,9 @@ fn int_value(i: i128) -> ConstValue {
     }
 }
 
+static MAX_ULP: AtomicU64 = AtomicU64::new(0);
+static SHORTEST: std::sync::Mutex<std::collections::BTreeMap<String, String>> = std::sync::Mutex::new(std::collections::BTreeMap::new());
+
 struct Tally {
     evals: AtomicU64,
     cases: AtomicU64,
@@ -830,6 +842,15 @@ fn run_case(cx: &Cx, t: &Tally, sweep: &str, v: &ConstValue, count_nt: bool) {
     for mut x in out {
         if let Some(o) = x.case.as_object_mut() {
             o.insert("sweep".into(), json!(sweep));
+        }
+        if let (ConstValue::Number(n), true) = (v, x.keys.get("kind").map(|k| k == "float").unwrap_or(false)) {
+            // smallest witness per class (by printed length, then text): deterministic
+            let t = n.to_string();
+            let mut g = SHORTEST.lock().unwrap();
+            let e = g.entry(x.class.clone()).or_insert_with(|| t.clone());
+            if (t.len(), &t) < (e.len(), &*e) {
+                *e = t;
+            }
         }
         cx.violation(x);
     }
@@ -917,9 +938,7 @@ pub fn run(cx: &Cx) {
                 }
             }
         });
-        let n = t.flush(cx, "sweep_C_every_scalar_value");
-        let per = if thorough { 2 + 2 * 17 } else { 2 };
-        let _ = (n, per);
+        t.flush(cx, "sweep_C_every_scalar_value");
         cx.extra("scalar_values_enumerated", json!((0u32..0x110000).filter(|c| char::from_u32(*c).is_some()).count()));
     }
 
@@ -1000,6 +1019,11 @@ pub fn run(cx: &Cx) {
         cx.extra("sweep_V_variables", json!({"cases": c}));
     }
 
+    cx.extra("max_float_rounding_error_ulp", json!(MAX_ULP.load(Ordering::Relaxed)));
+    let shortest = SHORTEST.lock().unwrap().clone();
+    if !shortest.is_empty() {
+        cx.extra("shortest_float_literal_per_violation_class", json!(shortest));
+    }
     cx.exhaustive(true);
     cx.extra("tier_bounds", json!(if thorough { "depth-2 leaf sub-menu 24; scalar values also paired with each alphabet symbol; 112 mantissas per exponent" } else { "depth-2 leaf sub-menu 12; scalar values alone and in a list; 21 mantissas per exponent" }));
 }
